@@ -54,6 +54,9 @@ var simplifierSpecs = []struct {
 	{"Radial(0.5)", func() orb.Simplifier { return simplify.Radial(planar.Distance, 0.5) }}, {"Radial(50)", func() orb.Simplifier { return simplify.Radial(planar.Distance, 50) }},
 	{"VisvalingamThreshold(0.5)", func() orb.Simplifier { return simplify.VisvalingamThreshold(0.5) }}, {"VisvalingamThreshold(50)", func() orb.Simplifier { return simplify.VisvalingamThreshold(50) }},
 	{"VisvalingamKeep(3)", func() orb.Simplifier { return simplify.VisvalingamKeep(3) }}, {"Visvalingam(50,2)", func() orb.Simplifier { return simplify.Visvalingam(50, 2) }},
+	// the threshold 0: only repeated vertices (radial), exactly collinear ones (Douglas-Peucker) or empty triangles go
+	{"DouglasPeucker(0)", func() orb.Simplifier { return simplify.DouglasPeucker(0) }}, {"Radial(0)", func() orb.Simplifier { return simplify.Radial(planar.Distance, 0) }},
+	{"VisvalingamThreshold(0)", func() orb.Simplifier { return simplify.VisvalingamThreshold(0) }},
 }
 
 var (
